@@ -866,12 +866,33 @@ func (txn *V2Transaction) EphemeralSiafundOutput(i int) SiafundElement {
 	}
 }
 
+// deepCopy returns a copy of p that does not alias any of its memory.
+func (p SpendPolicy) deepCopy() SpendPolicy {
+	switch t := p.Type.(type) {
+	case PolicyTypeThreshold:
+		t.Of = slices.Clone(t.Of)
+		for i := range t.Of {
+			t.Of[i] = t.Of[i].deepCopy()
+		}
+		return SpendPolicy{t}
+	case PolicyTypeUnlockConditions:
+		t.PublicKeys = slices.Clone(t.PublicKeys)
+		for i := range t.PublicKeys {
+			t.PublicKeys[i].Key = slices.Clone(t.PublicKeys[i].Key)
+		}
+		return SpendPolicy{t}
+	default:
+		return p // all other policy types are plain values
+	}
+}
+
 // DeepCopy returns a copy of txn that does not alias any of its memory.
 func (txn *V2Transaction) DeepCopy() V2Transaction {
 	c := *txn
 	c.SiacoinInputs = slices.Clone(c.SiacoinInputs)
 	for i := range c.SiacoinInputs {
 		c.SiacoinInputs[i].Parent = c.SiacoinInputs[i].Parent.Copy()
+		c.SiacoinInputs[i].SatisfiedPolicy.Policy = c.SiacoinInputs[i].SatisfiedPolicy.Policy.deepCopy()
 		c.SiacoinInputs[i].SatisfiedPolicy.Signatures = slices.Clone(c.SiacoinInputs[i].SatisfiedPolicy.Signatures)
 		c.SiacoinInputs[i].SatisfiedPolicy.Preimages = slices.Clone(c.SiacoinInputs[i].SatisfiedPolicy.Preimages)
 	}
@@ -879,6 +900,7 @@ func (txn *V2Transaction) DeepCopy() V2Transaction {
 	c.SiafundInputs = slices.Clone(c.SiafundInputs)
 	for i := range c.SiafundInputs {
 		c.SiafundInputs[i].Parent = c.SiafundInputs[i].Parent.Copy()
+		c.SiafundInputs[i].SatisfiedPolicy.Policy = c.SiafundInputs[i].SatisfiedPolicy.Policy.deepCopy()
 		c.SiafundInputs[i].SatisfiedPolicy.Signatures = slices.Clone(c.SiafundInputs[i].SatisfiedPolicy.Signatures)
 		c.SiafundInputs[i].SatisfiedPolicy.Preimages = slices.Clone(c.SiafundInputs[i].SatisfiedPolicy.Preimages)
 	}
@@ -891,11 +913,17 @@ func (txn *V2Transaction) DeepCopy() V2Transaction {
 	c.FileContractResolutions = slices.Clone(c.FileContractResolutions)
 	for i := range c.FileContractResolutions {
 		c.FileContractResolutions[i].Parent = c.FileContractResolutions[i].Parent.Copy()
-		if res, ok := c.FileContractResolutions[i].Resolution.(*V2StorageProof); ok {
+		switch res := c.FileContractResolutions[i].Resolution.(type) {
+		case *V2StorageProof:
 			sp := *res
 			sp.ProofIndex = sp.ProofIndex.Copy()
 			sp.Proof = slices.Clone(sp.Proof)
 			c.FileContractResolutions[i].Resolution = &sp
+		case *V2FileContractRenewal:
+			renewal := *res
+			c.FileContractResolutions[i].Resolution = &renewal
+		case *V2FileContractExpiration:
+			c.FileContractResolutions[i].Resolution = new(V2FileContractExpiration)
 		}
 	}
 	c.Attestations = slices.Clone(c.Attestations)
@@ -903,6 +931,10 @@ func (txn *V2Transaction) DeepCopy() V2Transaction {
 		c.Attestations[i].Value = slices.Clone(c.Attestations[i].Value)
 	}
 	c.ArbitraryData = slices.Clone(c.ArbitraryData)
+	if c.NewFoundationAddress != nil {
+		addr := *c.NewFoundationAddress
+		c.NewFoundationAddress = &addr
+	}
 	return c
 }
 
@@ -1537,6 +1569,8 @@ func (sfe SiafundElement) Copy() SiafundElement {
 // element's memory is copied.
 func (fce FileContractElement) Copy() FileContractElement {
 	fce.StateElement = fce.StateElement.Copy()
+	fce.FileContract.ValidProofOutputs = slices.Clone(fce.FileContract.ValidProofOutputs)
+	fce.FileContract.MissedProofOutputs = slices.Clone(fce.FileContract.MissedProofOutputs)
 	return fce
 }
 
@@ -1551,5 +1585,6 @@ func (v2fce V2FileContractElement) Copy() V2FileContractElement {
 // element's memory is copied.
 func (ae AttestationElement) Copy() AttestationElement {
 	ae.StateElement = ae.StateElement.Copy()
+	ae.Attestation.Value = slices.Clone(ae.Attestation.Value)
 	return ae
 }
